@@ -971,6 +971,7 @@ func (y *IfFeature) Evaluate(enabled map[string]*Feature) (bool, error) {
 	e := &ifFeatureEval{
 		features: enabled,
 		expr:     y.expr,
+		owner:    y.parent,
 	}
 	b := e.orExpr()
 	if e.lastErr == nil && e.peek() != "" {
@@ -989,6 +990,7 @@ func (y *IfFeature) Evaluate(enabled map[string]*Feature) (bool, error) {
 type ifFeatureEval struct {
 	features map[string]*Feature
 	expr     string
+	owner    Meta
 	pos      int
 	lastErr  error
 }
@@ -1033,6 +1035,18 @@ func (y *ifFeatureEval) factor() bool {
 	case "", ")", "and", "or":
 		y.syntaxErr()
 		return false
+	}
+	// identifier-ref-arg = [prefix ":"] identifier, the prefix being the module's own or one of its imports
+	if prefix, ident := splitIdent(tok); prefix != "" {
+		if def, ok := y.owner.(Definition); ok {
+			if _, _, err := findModuleAndIsExternal(def, prefix); err != nil {
+				if y.lastErr == nil {
+					y.lastErr = fmt.Errorf("%s in feature expression: %s", err, y.expr)
+				}
+				return false
+			}
+		}
+		tok = ident
 	}
 	_, found := y.features[tok]
 	return found
